@@ -65,6 +65,30 @@ theorem converted (v : PyVal) (cfg : Cfg) (fs : FS) (s : Sch) (he : encode v = s
       rw [doOps_writeOps _ _ _ hpar hnd]
       refine ⟨rfl, by simp, fun q hq => read_put_other _ _ _ _ (Ne.symm hq), rfl, by simp [hu]⟩
 
+/-- **the default output name**: with no `-o`, an input called `<base>.<ext>` (`base` non-empty, `ext` non-empty and
+dot-free: `model.pkl`, `model.v1.pkl`, `ünï.pickle`) goes to `<cwd>/<base>.skops` — only the last suffix is
+replaced — wherever the input lies; an input name without a dot, with only a leading dot (`.hidden`) or ending in a
+dot keeps its whole name and gets `.skops` appended -/
+theorem default_output_name (cfg : Cfg) (dir : List String) (abs : Bool) (b e : List Char) (ho : cfg.output = none)
+    (hi : cfg.input = ⟨abs, dir ++ [String.ofList (b ++ '.' :: e)]⟩) (hb : b ≠ []) (hne : e ≠ [])
+    (he : ∀ c ∈ e, c ≠ '.') :
+    outPath cfg = cfg.cwd ++ [String.ofList b ++ ".skops"] := by
+  have hn : ∀ n : String, (⟨abs, dir ++ [n]⟩ : Path).name = n := by intro n; simp [Path.name]
+  simp only [outPath, ho, hi, hn, stem_base_ext b e hb hne he]
+
+theorem default_output_name_no_suffix (cfg : Cfg) (dir : List String) (abs : Bool) (name : String)
+    (ho : cfg.output = none) (hi : cfg.input = ⟨abs, dir ++ [name]⟩)
+    (h : (∀ c ∈ name.toList, c ≠ '.') ∨ (∃ e, name = String.ofList ('.' :: e) ∧ ∀ c ∈ e, c ≠ '.') ∨
+         (∃ b, name = String.ofList (b ++ ['.']))) :
+    outPath cfg = cfg.cwd ++ [name ++ ".skops"] := by
+  have hs : stem name = name := by
+    rcases h with h | ⟨e, rfl, he⟩ | ⟨b, rfl⟩
+    · exact stem_no_dot name h
+    · exact stem_leading_dot e he
+    · exact stem_trailing_dot b
+  have hn : ∀ n : String, (⟨abs, dir ++ [n]⟩ : Path).name = n := by intro n; simp [Path.name]
+  simp only [outPath, ho, hi, hn, hs]
+
 /-- non-vacuity: default output name from the input stem; the warning appears exactly with untrusted types -/
 example :
     let v := PyVal.obj "mod.Mine" (.dict .dict .nil)
